@@ -396,6 +396,34 @@ def _dispatch(case):
     return None
 
 
+def _compose_case(case):
+    """A rotation that is itself a product: rounding can leave |forward.z| a few ulps above 1 exactly at the poles."""
+    from srctools.math import Matrix, Angle
+    p1, y1, r1, p2, y2, r2 = case
+    m = Matrix.from_angle(p1, y1, r1) @ Matrix.from_angle(p2, y2, r2)
+    vals = _mat_vals(m)
+    a = m.to_angle()
+    back = Matrix.from_angle(a)
+    horiz = math.hypot(vals[0], vals[1])
+    tol = 1e-9 if horiz > 0.001 else 2 * horiz + 1e-9
+    if not _close(_mat_vals(back), vals, tol):
+        worst = max(abs(x - y) for x, y in zip(_mat_vals(back), vals))
+        return f'from_angle(to_angle(A @ B)) differs from A @ B by {worst:.3g} (tolerance {tol:.3g}) for {case}'
+    prod = Angle(p1, y1, r1) @ Angle(p2, y2, r2)
+    if not _close(_mat_vals(Matrix.from_angle(prod)), vals, 1e-6 if horiz > 0.001 else 2 * horiz + 1e-6):
+        return f'Angle @ Angle is not the composition for {case}'
+    if not _close(_mat_vals(m.inverse()), _mat_vals(m.transpose()), 1e-9):
+        return f'inverse() != transpose() for the product {case}'
+    return None
+
+
+def _job_compose(case):
+    try:
+        return _compose_case(case)
+    except Exception as e:
+        return f'{type(e).__name__}: {e}'
+
+
 def _job_rt(pyr):
     try:
         return _roundtrip(pyr)
@@ -427,6 +455,31 @@ def b_roundtrip(ctx):
                           bad, list(job))
 
 
+@bounded('C04.B-composed', bound='products A @ B of two from_angle rotations whose pitches add up to a pole (all 15 degree '
+         'pitch pairs summing to 90 / 270, rolls {0, 30, 105}, second yaw {0, 45}) and seeded pairs on the 15 degree grid '
+         '(quick 2000, thorough 40000): to_angle of the product, Angle @ Angle, inverse',
+         rule='one case per pair; non-trivial when the product points along a pole')
+def b_composed(ctx):
+    jobs = []
+    for p1 in ANGLES15:
+        for pole in (90.0, 270.0):
+            for r1 in (0.0, 30.0, 105.0):
+                for y2 in (0.0, 45.0):
+                    jobs.append((p1, 0.0, r1, (pole - p1) % 360.0, y2, 0.0))
+    for _ in range(2000 if not ctx.thorough else 40000):
+        jobs.append(tuple(ctx.rng.choice(ANGLES15) for _ in range(6)))
+    seen = set()
+    for job, bad in ctx.pmap(_job_compose, jobs, batch=4096):
+        ctx.case(job, nontrivial=True)
+        if bad:
+            sig = bad.split(' for ')[0][:50]
+            if sig in seen:
+                continue
+            seen.add(sig)
+            ctx.violation('composed=' + sig, bad, list(job))
+
+
+b_composed.replay = lambda inp: (lambda r: {'failed': bool(r), 'observation': r})(_job_compose(tuple(inp)))
 b_roundtrip.replay = lambda inp: (lambda r: {'failed': bool(r), 'observation': r})(_job_rt(tuple(inp)))
 
 
@@ -449,7 +502,7 @@ def b_dispatch(ctx):
 
 b_dispatch.replay = lambda inp: (lambda r: {'failed': bool(r), 'observation': r})(
     _job_dispatch(tuple(tuple(x) for x in inp)))
-BOUNDED = [b_roundtrip, b_dispatch]
+BOUNDED = [b_roundtrip, b_composed, b_dispatch]
 
 
 def _witness(model=None, obligation=None):
@@ -467,6 +520,10 @@ for _c in PROOFS:
     _c.replay_fn = _witness
 
 MUTATIONS = [
+    dict(name='to_angle_pitch_by_asin_at_the_pole', file='math.py',
+         old="            ang._pitch = math.degrees(math.atan2(-for_z, horiz_dist)) % 360.0 % 360.0\n            ang._roll = 0.0  # Can't produce.",
+         new="            ang._pitch = math.degrees(math.asin(-for_z)) % 360.0 % 360.0\n            ang._roll = 0.0  # Can't produce.",
+         expect='composed='),
     dict(name='inplace_square_reads_overwritten_rows', file='math.py',
          old="            if other is self:\n                # m @= m, we'd be reading rows that were already overwritten.\n                other = self.copy()\n",
          new="", expect='inplace.matmul_with_itself'),
